@@ -108,10 +108,17 @@ func coqCase(in *input, o *obs) string {
 	case "other":
 		ident = fmt.Sprintf("(IdKey %d)", in.Ident.Key)
 	}
-	return fmt.Sprintf("Case %s %s %s %s (Hello %s %d) %s %d (Obs %s %d %s %s %s)", lvl, role, coqSuite(in.Suite),
-		lib.NatList(in.Holds), coqChain(in.Chain, o.absCtx), in.HSKey, ident, in.Msgs,
+	ticket := "None"
+	if in.Resume != "" {
+		// the certificate of the earlier, honest handshake (proof over the earlier nonce = 1)
+		c0 := honestSpec(kA, 0)
+		c0.Sig.Nonce = "stale"
+		ticket = fmt.Sprintf("(Some (%s, %s))", coqCert(c0, absCtx{}), lib.Bool(in.Resume == "same"))
+	}
+	return fmt.Sprintf("Case %s %s %s %s %s (Hello %s %d) %s %d (Obs %s %d %s %s %s %s)", lvl, role, coqSuite(in.Suite),
+		lib.NatList(in.Holds), ticket, coqChain(in.Chain, o.absCtx), in.HSKey, ident, in.Msgs,
 		lib.Bool(o.Handshake), o.Dispatched, lib.NatList(o.Stamped), lib.Bool(o.Crash != ""),
-		lib.Bool(!strings.HasPrefix(o.HonestProof, "bad")))
+		lib.Bool(!strings.HasPrefix(o.HonestProof, "bad")), lib.Bool(o.Resumed))
 }
 
 func reasonClass(err error) string {
@@ -171,7 +178,7 @@ func run(raw json.RawMessage) lib.Case {
 //	+identity-without-key  accept role over TLS, identity message without the public-key field   (F29)
 func defectTags(in *input) string {
 	if len(in.Chain) == 0 || in.Chain[0].Cert == nil {
-		return ""
+		return resumeTag(in)
 	}
 	c := in.Chain[0].Cert
 	tags := ""
@@ -196,7 +203,17 @@ func defectTags(in *input) string {
 	if in.Level == "tls" && in.Role == "accept" && in.Ident.Kind == "nokey" {
 		tags += "+identity-without-key"
 	}
-	return tags
+	return tags + resumeTag(in)
+}
+
+// +resumed-session  accept role over TLS, the peer offers the ticket of an earlier
+//
+//	honest session to the same router incarnation              (C08-N1)
+func resumeTag(in *input) string {
+	if in.Level == "tls" && in.Role == "accept" && in.Resume == "same" {
+		return "+resumed-session"
+	}
+	return ""
 }
 
 func runHere(in *input) obs {
@@ -788,8 +805,10 @@ func runAccept(in *input, w *world, h *honest) (o obs) {
 	sendIdent := func() {
 		switch in.Ident.Kind {
 		case "match":
+			// the key named by the certificate in force: on a resumed session that is
+			// the certificate of the original handshake (key A)
 			k, ok := leafCNKey(in)
-			if !ok {
+			if !ok || o.Resumed {
 				k = kA
 			}
 			tc.Send(w.si(k, network.NewTLSAddress("127.0.0.1:1"), false))
